@@ -541,6 +541,10 @@ func c01Membership(c *Ctx) {
 				}
 			}
 			if p := ssau.ParamOf(x.X); p != nil && strings.HasSuffix(p.Type().String(), "database.Command") {
+				// a step handed the list: db.Commands itself at every call
+				if isCommandsList(x.X) {
+					return true, "&commands[i] of a step that every caller hands db.Commands"
+				}
 				return false, "the address of an element of a Command slice that is not db.Commands (" + p.Name() + ")"
 			}
 			return false, "the address of an element of a slice other than db.Commands"
